@@ -538,3 +538,21 @@ V("C01", "viewer-from-slices-off-by-one", "fire", "C01.R9", "ranges built from s
   (TCV, "ranges.append(default_backend.astensor(range(sl.start, sl.stop)))", "ranges.append(default_backend.astensor(range(sl.start, sl.stop - 1)))"))
 V("C01", "viewer-parmap-sorted-by-name", "silent", "", "all-parameter viewer partitions listed by name instead of slice start (named access only)",
   (PVV, "                key=lambda x: x[2],", "                key=lambda x: x[0],"))
+
+# ------------------------------------------------------------------ C01.R10 / R11: end-to-end appliers and builders
+V("C01", "nominal-builder-spec-order", "fire", "C01.R5", "nominal rates concatenated in the order samples were first seen",
+  ("src/pyhf/pdf.py", "                for sample in self.config.samples\n            ]\n        )\n        _nominal_rates", "                for sample in self.mega_samples\n            ]\n        )\n        _nominal_rates"))
+V("C01", "walk-spec-channel-order", "fire", "C01.R11", "builders walked in the specification's channel order",
+  ("src/pyhf/pdf.py", "    for c in config.channels:\n        for s in config.samples:\n            helper_data", "    for c in [ch['name'] for ch in spec['channels']]:\n        for s in config.samples:\n            helper_data"))
+V("C01", "normsys-undeclared-hi-zero", "fire", "C01.R11", "undeclared normsys cells get 0 instead of 1",
+  ("src/pyhf/modifiers/normsys.py", "hi_factor = thismod['data']['hi'] if thismod else 1.0", "hi_factor = thismod['data']['hi'] if thismod else 0.0"))
+V("C01", "shapesys-uncrt-undeclared-nominal", "fire", "C01.R11", "undeclared shapesys cells carry the nominal as uncertainty",
+  ("src/pyhf/modifiers/shapesys.py", "uncrt = thismod['data'] if thismod else [0.0] * len(nom)", "uncrt = thismod['data'] if thismod else nom"))
+V("C01", "applier-gets-all-modifiers", "fire", "C01.R11", "every applier receives the modifiers of all types",
+  ("src/pyhf/pdf.py", "                x for x in config.modifiers if x[1] == k\n", "                x for x in config.modifiers\n"))
+V("C01", "staterror-apply-default-zero", "fire", "C01.R10", "staterror leaves 0 instead of 1 where not declared",
+  ("src/pyhf/modifiers/staterror.py", "        self.staterror_default = tensorlib.ones(tensorlib.shape(self.staterror_mask))", "        self.staterror_default = tensorlib.zeros(tensorlib.shape(self.staterror_mask))"))
+V("C01", "normfactor-einsum-sum-mods", "fire", "C01.R10", "normfactor einsum sums over all normfactor parameters",
+  ("src/pyhf/modifiers/normfactor.py", "                'msab,m->msab', self.normfactor_mask, normfactors", "                'msab,x->msab', self.normfactor_mask, normfactors"))
+V("C01", "shapefactor-where-swapped", "fire", "C01.R10", "shapefactor where() arms swapped",
+  ("src/pyhf/modifiers/shapefactor.py", "self.shapefactor_mask, results_shapefactor, self.shapefactor_default", "self.shapefactor_mask, self.shapefactor_default, results_shapefactor"))
